@@ -171,6 +171,10 @@ def _ts_history_models():
     return m
 
 
+def _ts_history_aml_models():
+    return amlmodel.register(_ts_history_models())
+
+
 def _make_and_use(reg, base, p1, p2, base2, t):
     ts = TimeSeries(reg, base, p1, None)
     v1 = ts.at(t)
@@ -346,6 +350,53 @@ class WNJ(WN):
         return [(nm, o) for nm, o in self.nodes if o.cls is Junction]
 
 
+def _build_then_param(reg, e0, e1, node, m, wn):
+    # harness text: the junction's demand list is built through the real constructor, then the parameter is (re)built
+    node._demand_timeseries_list = Demands(reg, e0, e1)
+    param.expected_demand_param(m, wn)
+
+
+def _expected_demand_built_case(existing):
+    """structure-independent companion: a junction whose FIRST demand entry is constant (no pattern) and whose second follows a pattern;
+    the parameter - at creation and at every later update - is the sum of both at simulation time + pattern start"""
+    def build(cx):
+        from wntr.network.base import Registry
+
+        class Reg(PatReg, Registry):
+            def __init__(self, table):
+                PatReg.__init__(self, table)
+                self.default_pattern = None
+        n = cx.name("n")
+        st, ps, dm = cx.int("sim_time"), cx.int("pattern_start"), cx.real("demand_multiplier")
+        cx.assume(cx.t(st) >= 0, cx.t(ps) >= 0)
+        b0, b1 = cx.real("base0"), cx.real("base1")
+        n1, c1 = cx.name("pattern1"), cx.name("category1")
+        cx.assume(cx.t(n1) != name_const(""), cx.t(c1) != name_const(""))
+        pat = cx.obj(Pattern, name=n1, _id=1, _multipliers=[1.0], _time_options=None, wrap=True)
+        reg = Reg([(n1, pat)])
+        node = mk_node(cx, Junction, n, _demand_timeseries_list=None)
+        from contracts._net import time_options
+        opts = cx.obj(types.SimpleNamespace, hydraulic=cx.obj(types.SimpleNamespace, demand_multiplier=dm, demand_model="DD"),
+                      time=time_options(cx, pattern_start=ps))
+        wn = WNJ(options=opts)
+        wn.sim_time = st
+        wn.nodes.append((n, node))
+        from contracts.params import leafmap
+        m = cx.obj(ModelStub, **({"expected_demand": leafmap("expected_demand", True)} if existing else {}))
+        cx.target(_build_then_param, reg, (b0, None, c1), (b1, n1, None), node, m, wn)
+
+        def post(out):
+            if not out.returned:
+                return []
+            leaf = cx.interp.getitem(m.fields["expected_demand"], n)
+            val = leaf.value if isinstance(leaf, Leaf) else leaf
+            T, M = cx.t(st) + cx.t(ps), cx.t(dm)
+            return [("requested_demand_is_the_sum_of_the_constant_and_the_patterned_entry_at_simtime_plus_pattern_start",
+                     library.as_real(val) == cx.t(b0) * M + cx.t(b1) * PM2(1, T) * M)]
+        cx.ensure(post)
+    return Case("constant_first_entry_patterned_second,existing=%s" % existing, build, crosscheck=False)
+
+
 def _expected_demand_case(kind, existing):
     def build(cx):
         n = cx.name("n")
@@ -453,6 +504,9 @@ CONTRACTS = [
              loop_specs=_dem_loop_specs()),
     Contract("wntr.sim.models.param:expected_demand_param", ["C01"], [_expected_demand_case("param", e) for e in (False, True)],
              models=amlmodel.build_models, trusted=["aml.Param(v) is a box holding v (DESIGN 2.5)"]),
+    Contract("wntr.sim.models.param:expected_demand_param (demand list built through its constructor)", ["C01", "C20"],
+             [_expected_demand_built_case(e) for e in (False, True)], models=_ts_history_aml_models,
+             interpret_always=(_build_then_param, Demands, TimeSeries), trusted=["aml.Param(v) is a box holding v (DESIGN 2.5)"]),
     Contract("wntr.sim.models.var:demand_var", ["C01"], [_expected_demand_case("var", False)],
              models=amlmodel.build_models, trusted=["aml.Var(v) is a box holding v (DESIGN 2.5)"]),
 ]
